@@ -211,6 +211,45 @@ pub fn seq_case(rng: &mut Rng, id: String) -> Case {
                     }
                 }
             },
+            9 if !senders.is_empty() && rng.chance(1, 2) => {
+                // a message that does not decode as the route's type (one byte where a u64 is expected), sent by a peer that holds
+                // the channel with another type: a user callback gets the decode error (logged as the largest tag), the library's
+                // crossbeam-forwarding handler has nobody to report it to and drops it — and the router goes on serving every route
+                let r = rng.below(senders.len() as u64) as usize;
+                if let Some(tx) = &senders[r] {
+                    let peer: IpcSender<u8> = tx.clone().to_opaque().to();
+                    let fwd = CB_ROUTES.lock().unwrap().iter().any(|(x, _, _, _)| *x == r);
+                    if fwd {
+                        ops.push(format!("badfwd {}", r));
+                    } else {
+                        ops.push(format!("send {} {}", r, u64::MAX));
+                    }
+                    let _ = peer.send(7);
+                    if live[r] && !stopped && !fwd {
+                        if !wait_for(&log, |l| l.contains(&L::Invoke(r, u64::MAX)), 5000) {
+                            case.fail(format!("an undecodable message on route {} never reached its callback (as an error)", r));
+                        }
+                    }
+                    if fwd {
+                        // nothing to wait for: give the router the time to take it
+                        std::thread::sleep(Duration::from_millis(3));
+                        if live[r] && !stopped {
+                            // …or to die of it: the router thread is then gone for every route, and the proxy must not be used any more
+                            let t0 = Instant::now();
+                            while PANICS.load(Ordering::SeqCst) == p0 && t0.elapsed() < Duration::from_millis(40) {
+                                std::thread::sleep(Duration::from_millis(1));
+                            }
+                            if PANICS.load(Ordering::SeqCst) > p0 {
+                                case.fail(format!("an undecodable message on crossbeam-forwarding route {} panicked the router thread (every route of this router is dead): {}",
+                                                  r, PANIC_MSG.lock().unwrap()));
+                                std::mem::forget(proxy.take());
+                                break;
+                            }
+                        }
+                    }
+                    case.tags.push(format!("undecodable={}", if fwd { "forwarding" } else { "callback" }));
+                }
+            },
             9 => {
                 if proxy.is_some() && rng.chance(1, 3) {
                     ops.push("dropproxy".into());
